@@ -300,7 +300,11 @@ impl Property for C14 {
                 0..=3 => {
                     let text = gen_text(rng, tier);
                     let ram_end = rng.chance(1, 2);
-                    if rng.chance(1, 12) && !end_used[ram_end as usize] {
+                    if rng.chance(1, 25) {
+                        // the empty tail of a buffer that ends with the region: length 0 at the address one past the last
+                        // byte of DRAM (nothing is read, so nothing can fail: an empty text is emitted)
+                        blocks.push(Block::WriteAt { addr: 0x600000, text: vec![], fd: 1 });
+                    } else if rng.chance(1, 12) && !end_used[ram_end as usize] {
                         // the argument block {fd, buffer, length} ends at the last byte of the region
                         end_used[ram_end as usize] = true;
                         blocks.push(Block::WriteArgAt { text, dram_end: !ram_end });
@@ -354,6 +358,12 @@ impl Property for C14 {
                 _ => blocks.push(if rng.chance(1, 2) { Block::Arith(rng.u8()) } else { Block::Filler(rng.u32()) }),
             }
         }
+        // a fifth of the programs run masked until here: every request stays pending across the calls behind it
+        // (a set_handler for a vector whose request is already waiting decides where that request goes)
+        let masked = rng.chance(1, 5);
+        if masked {
+            blocks.push(Block::SetCcr(0x00));
+        }
         blocks.push(Block::Delay(12));
         // events that point behind the last block never fire; clamp them
         let nb = blocks.len();
@@ -372,7 +382,7 @@ impl Property for C14 {
             data_dram: rng.chance(1, 3),
             vec_top: rng.u8(),
             sub_delay: 1,
-            init_ccr: Some(rng.u8() & 0x7f),
+            init_ccr: Some(if masked { 0x80 | rng.u8() } else { rng.u8() & 0x7f }),
             stack_off: if rng.chance(1, 2) { 0 } else { 4 * rng.below(64) as u16 },
             exit_style: if rng.chance(1, 2) { 0 } else { rng.below(9) as u8 },
         };
@@ -429,7 +439,7 @@ impl Property for C14 {
                     ends_in_error = true;
                     break;
                 }
-                Block::Trapa(_) | Block::Raw(_) | Block::SetCcr(_) => return Verdict::Invalid("block kind not part of C14 scenarios".into()),
+                Block::Trapa(_) | Block::Raw(_) => return Verdict::Invalid("block kind not part of C14 scenarios".into()),
                 _ => {}
             }
         }
